@@ -696,8 +696,64 @@ func (p Prop) Run(ci interface{}, focus *core.Violation) *core.Outcome {
 		}
 	}
 	seen := map[string]bool{h0: true}
+	// ---- the operation's own transaction cannot be started: whatever runs afterwards
+	// would not run in it, so no hook may fire after the failed BEGIN
+	beginOnly := len(c.Only) == 1 && c.Only[0].Drv != nil
+	if (c.Only == nil || beginOnly) && !c.ExplicitTx && c.W != nil {
+		hasBegin := false
+		for _, ev := range sr.Events {
+			if ev.Task >= 0 && ev.Kind == "begin" {
+				hasBegin = true
+				break
+			}
+		}
+		if hasBegin {
+			bf := ops.Fault{Drv: &simdrv.Fault{ID: 9001, Kind: "begin", Occ: 0, Type: "err"}}
+			x, err := p.exec(c, &bf)
+			if err != nil {
+				out.Trouble = "failed-begin run: " + err.Error()
+				return out
+			}
+			out.Runs++
+			h := ops.FaultedHash(h0, bf.String(), x.sr)
+			if !seen[h] {
+				seen[h] = true
+				out.Hashes = append(out.Hashes, h)
+			}
+			if v := x.sr.HungViolation(); v != nil {
+				v.Key += "|" + bf.Short()
+				if out.Report(v, focus, h) {
+					c.Only = []ops.Fault{bf}
+				}
+				return out
+			}
+			var failSeq int64 = -1
+			for _, ev := range x.sr.Events {
+				if ev.Kind == "begin" && ev.Fault != "" {
+					failSeq = ev.Seq
+					break
+				}
+			}
+			if failSeq >= 0 {
+				out.Count("fired:begin_err", 1)
+				for _, hk := range x.sr.Hooks {
+					if hk.Seq > failSeq {
+						v := &core.Violation{Class: "ran_after_failed_begin", Key: c.kind() + "|hook:" + hk.Model + "." + hk.Hook, Detail: fmt.Sprintf("with [%s]: the operation's transaction could not be started (returned error %v), yet %s.%s ran afterwards", &bf, x.sr.Res.Err, hk.Model, hk.Hook)}
+						if out.Report(v, focus, h) {
+							c.Only = []ops.Fault{bf}
+							return out
+						}
+						break
+					}
+				}
+			}
+		}
+	}
 	for i := range faults {
 		f := &faults[i]
+		if f.Hook == nil {
+			continue
+		}
 		x, err := p.exec(c, f)
 		if err != nil {
 			out.Trouble = "faulted run: " + err.Error()
@@ -743,5 +799,3 @@ func (p Prop) Run(ci interface{}, focus *core.Violation) *core.Outcome {
 	}
 	return out
 }
-
-var _ = simdrv.Marker
